@@ -218,6 +218,40 @@ def g_late(rng):
     return es
 
 
+def g_hub(rng, style):
+    """very unbalanced degrees: a hub with 17..44 pendant leaves (its closed neighbourhood is more than 8 times larger than the
+    others') plus a small structure through the hub: cycles, diagonals, triangles, low-degree vertices sharing neighbours with it"""
+    k = rng.randint(17, 44)
+    hub = 0
+    prs = [(hub, i) for i in range(1, k + 1)]
+    nxt = k + 1
+    for _ in range(rng.randint(1, 4)):
+        kind = rng.choice(("cycle", "diag", "triangle", "leafleaf", "fan"))
+        if kind == "cycle":          # a 4- or 5-cycle through the hub and fresh low-degree vertices
+            m = rng.randint(3, 4)
+            vs = list(range(nxt, nxt + m)); nxt += m
+            prs += [(hub, vs[0])] + [(vs[i], vs[i + 1]) for i in range(m - 1)] + [(vs[-1], hub)]
+        elif kind == "diag":         # square hub-a-b-c with the diagonal a-c or hub-b
+            a, b, c = nxt, nxt + 1, nxt + 2; nxt += 3
+            prs += [(hub, a), (a, b), (b, c), (c, hub), rng.choice(((a, c), (hub, b)))]
+        elif kind == "triangle":     # two leaves joined: a triangle through the hub
+            a, b = rng.sample(range(1, k + 1), 2)
+            prs.append((min(a, b), max(a, b)))
+        elif kind == "leafleaf":     # a path between two leaves through fresh vertices: a cycle through the hub
+            a, b = rng.sample(range(1, k + 1), 2)
+            m = rng.randint(1, 2)
+            vs = [a] + list(range(nxt, nxt + m)) + [b]; nxt += m
+            prs += [(vs[i], vs[i + 1]) for i in range(len(vs) - 1)]
+        else:                        # a low-degree vertex adjacent to a few leaves (common neighbours not adjacent to each other)
+            a = nxt; nxt += 1
+            prs += [(l, a) for l in rng.sample(range(1, k + 1), rng.randint(2, 3))]
+            if rng.random() < 0.5:
+                prs.append((hub, a))
+    prs = sorted({(min(u, v), max(u, v)) for (u, v) in prs if u != v})
+    ws = weights(rng, len(prs), style)
+    return [(u, v, w) for (u, v), w in zip(prs, ws)]
+
+
 def generate(rng, tier):
     """list of (family, edges, budget)"""
     th = tier == "thorough"
@@ -302,6 +336,9 @@ def generate(rng, tier):
     for _ in range(rep * 8):
         base = g_cone(rng, g_cycle(rng, rng.randint(4, 6), "few"), 3, 6)
         add("double-cone", g_cone(rng, base, 2, 9), budget=80)
+    # hubs: closed neighbourhoods of very different sizes (the clique complex stays small: diagrams are compared in full)
+    for _ in range(rep * 10):
+        add("hub", g_hub(rng, rng.choice(W_STYLES)), budget=400)
     # larger graphs (up to 30 vertices, 435 edges): too large for the dense pairing oracle; the returned list is compared with the
     # model exactly and the connected components at every threshold are compared before/after (budget 0 = no diagrams)
     for _ in range(rep * 12):
